@@ -1,7 +1,7 @@
 (* C04 — generated once by tools/mkprops.py from the lemma statements; only statements,
    `exact lemma` and Print Assumptions live here. *)
 From Coq Require Import String Ascii NArith ZArith List Bool Sorted Permutation.
-From DS Require Import Model.PCG Model.Roll Model.Str Model.Dice Proofs.RollProofs Proofs.DiceProofs.
+From DS Require Import Model.PCG Model.Roll Model.Str Model.Dice Proofs.RollProofs Proofs.DiceProofs Proofs.PoolText.
 Import ListNotations.
 Open Scope string_scope.
 Open Scope Z_scope.
@@ -141,12 +141,33 @@ Proof. first [ exact (dc_mx_exact S next next_word addLine r1 x r2 m) | exact (d
 
 End Source.
 
+(* the pool texts determine what they display: two renderings are equal only for the same counters and — whenever dice are
+   listed at all — the same rounds, die by die (Proofs/PoolText.v; the text itself is tied to the roll by
+   C14_annotation_total_wod / _dc) *)
+Theorem C04_wod_text_determines_dice addLine threshold isGE pool succ all rounds rs pool' succ' all' rounds' rs' :
+  1 <= rounds -> 1 <= rounds' ->
+  wod_render addLine threshold isGE pool succ all rounds rs = wod_render addLine threshold isGE pool' succ' all' rounds' rs' ->
+  succ = succ' /\ all = all' /\ rounds = rounds' /\
+  pool_displayed (wod_reach addLine) pool rs = pool_displayed (wod_reach addLine) pool' rs' /\
+  (pool_displayed (wod_reach addLine) pool rs = true -> rs = rs').
+Proof. exact (wod_render_inj addLine threshold isGE pool succ all rounds rs pool' succ' all' rounds' rs'). Qed.
+
+Theorem C04_dc_text_determines_dice addLine pool result all rounds rs pool' result' all' rounds' rs' :
+  1 <= rounds -> 1 <= rounds' ->
+  dc_render addLine pool result all rounds rs = dc_render addLine pool' result' all' rounds' rs' ->
+  result = result' /\ all = all' /\ rounds = rounds' /\
+  pool_displayed (dc_reach addLine) pool rs = pool_displayed (dc_reach addLine) pool' rs' /\
+  (pool_displayed (dc_reach addLine) pool rs = true -> rs = rs').
+Proof. exact (dc_render_inj addLine pool result all rounds rs pool' result' all' rounds' rs'). Qed.
+
 (* non-vacuity: a concrete run meets the hypotheses *)
 Example C04_nonvacuous : exists num txt s', roll_common pcg_next 64 3 6 None None 2 0 2 0 {| hi := 1; lo := 2 |}%N = Done ((num, txt), s').
 Proof. vm_compute. eauto. Qed.
 Example C04_nonvacuous_wod : exists r s', roll_wod pcg_next 100 64 8 5 10 8 true 0 {| hi := 5; lo := 7 |}%N = Done (r, s') /\ wod_check 8 5 10 8 = true.
 Proof. vm_compute. eauto. Qed.
 
+Print Assumptions C04_wod_text_determines_dice.
+Print Assumptions C04_dc_text_determines_dice.
 Print Assumptions C04_roll_many_legal.
 Print Assumptions C04_roll_common_legal.
 Print Assumptions C04_roll_common_keeps_extremes.
